@@ -78,6 +78,11 @@ func TestVerifC01ClientInterceptorTable(t *testing.T) {
 		for i := 0; i < perBad; i++ {
 			ran, err := call(method, c)
 			m.Count("calls_failing", 1)
+			if ran && err == breaker.ErrServiceUnavailable {
+				m.Violate("C01:reject:req-ran", desc, "call #%d ran the invoker and still returned ErrServiceUnavailable", i)
+				bad = true
+				break
+			}
 			if !ran {
 				rej++
 				if first < 0 {
